@@ -209,6 +209,7 @@ type op =
 | OAsync
 | OPoll
 | ODropFut
+| OWait
 
 type res =
 | RL
@@ -271,6 +272,7 @@ type pc =
 | DFix
 | DUnl
 | DLoad
+| WaitW
 
 type mstate = { locked : bool; hasq : bool; llock : nat option;
                 queue : nat list; narm : (nat -> wk option);
@@ -573,9 +575,18 @@ let do_llswap s t l =
      Some ((after_llock (set_llock s0 (Some t)) t l), (EvSwap (VLocked,
        o_ll_swap, (Npos XH), N0))))
 
-(** val dispatch : mstate -> nat -> op list -> (mstate * mev) option **)
+(** val do_wait : mstate -> nat -> mch -> (mstate * mev) option **)
 
-let rec dispatch s t p = match p with
+let do_wait s t c =
+  let s1 = set_token s t true in
+  (match c with
+   | ChGo -> ret s1 t Idle (EvUnpark t)
+   | ChAgain -> ret s1 t WaitW (EvUnpark t))
+
+(** val dispatch :
+    mstate -> nat -> mch -> op list -> (mstate * mev) option **)
+
+let rec dispatch s t c p = match p with
 | [] ->
   (match s.fut t with
    | Some _ -> do_llswap (set_prog s t []) t LDrop
@@ -598,7 +609,11 @@ let rec dispatch s t p = match p with
    | ODropFut ->
      (match s.fut t with
       | Some _ -> do_llswap (set_prog s t r) t LDrop
-      | None -> dispatch s t r))
+      | None -> dispatch s t c r)
+   | OWait ->
+     (match s.fut t with
+      | Some _ -> do_wait (set_prog s t r) t c
+      | None -> dispatch s t c r))
 
 (** val block_next : mstate -> nat -> mstate **)
 
@@ -611,7 +626,7 @@ let block_next s t =
 
 let mstep s t c =
   match s.pcs t with
-  | Idle -> dispatch s t (s.prog t)
+  | Idle -> dispatch s t c (s.prog t)
   | TALoad a -> do_taload s t a
   | TACas (a, sq) ->
     let ok = (&&) (negb s.locked) (eqb s.hasq sq) in
@@ -749,6 +764,7 @@ let mstep s t c =
     let e = EvLoad ((VNode t), o_node_load, (b2n (s.nwk t))) in
     let s1 = set_fut s t None in
     if s.nwk t then ret s1 t (LLSwap LWake) e else ret s1 t Idle e
+  | WaitW -> do_wait s t c
 
 (** val minit : (nat -> op list) -> mstate **)
 
